@@ -158,7 +158,8 @@ JointUnique(st) == Goto(Collect(st, JointUniqueErrors(st.S, st.obj)), "component
 ComponentBegin(st) == Goto([st EXCEPT !.sch[st.k] = FALSE], "component_body")
 ComponentBody(st) ==
   LET cs == st.S.cols[st.k]
-      es == IF ComponentActive(cs, st.obj) THEN ColumnComponentErrors(cs, st.obj) ELSE <<>>
+      es == IF ComponentActive(cs, st.obj)
+            THEN ColumnComponentErrorsWith(cs, st.obj, "DuplicateNullsNotReported" \notin st.dev) ELSE <<>>
   IN Goto([Collect(st, es) EXCEPT !.sch[st.k] = cs.coerce, !.k = st.k + 1], "component")
 IndexComponent(st) ==
   Goto(Collect(st, IF "IndexFailureCasesByPosition" \in st.dev
@@ -204,7 +205,7 @@ Next == APreprocess \/ AAddMissing \/ AStrictFilter \/ ASetDefaults \/ ACoerceDt
 
 ---------------------------------------------------------------------------
 Done == st.pc = "done"
-AsIs == {"IndexFailureCasesByPosition"}
+AsIs == {"IndexFailureCasesByPosition", "DuplicateNullsNotReported"}
 NoParsing(S) == /\ ~AnyCoerce(S) /\ ~S.addmiss /\ S.strict # "filter" /\ ~S.drop
                 /\ \A i \in 1..Len(S.cols) : IsNull(S.cols[i].default)
 Strip(S) == [S EXCEPT !.coerce = FALSE, !.addmiss = FALSE, !.drop = FALSE,
